@@ -239,7 +239,9 @@ def _prove_instance(obl, case, tier, known_witnesses, timeout_ms=60000):
                 # fallback prover G: polynomial identity modulo the polynomial equalities among the hypotheses (sound, exact)
                 try:
                     from . import poly
-                    if poly.prove(hyps, g):
+                    with _time_limit(budget.get("groebner_s", 25)):
+                        ok_g = poly.prove(hyps, g)
+                    if ok_g:
                         res["groebner_vcs"] = res.get("groebner_vcs", 0) + 1
                         continue
                 except Exception as e:      # noqa: BLE001 - the fallback may only ever add proofs
@@ -259,6 +261,28 @@ def _prove_instance(obl, case, tier, known_witnesses, timeout_ms=60000):
     # an instance that lies entirely inside a listed known finding is not a discharged obligation
     res["verdict"] = "known" if (known_hit and not outside_feasible) else "proved"
     return res
+
+
+class _Timeout(Exception):
+    pass
+
+
+@contextlib.contextmanager
+def _time_limit(seconds):
+    """wall-clock limit inside a worker process (main thread): raises _Timeout"""
+    import signal
+
+    def handler(signum, frame):
+        raise _Timeout(f"time limit of {seconds}s exceeded")
+    old = signal.signal(signal.SIGALRM, handler)
+    prev = signal.alarm(int(seconds))
+    try:
+        yield
+    finally:
+        signal.alarm(0)
+        signal.signal(signal.SIGALRM, old)
+        if prev:
+            signal.alarm(prev)
 
 
 def _trim(s, n=1500):
@@ -299,7 +323,12 @@ def _worker(args):
                 out["verdict"] = "bounded-pass"
             return out
         # 2. proof
-        pr = _prove_instance(obl, case, tier, known_w)
+        limit = (obl.budget or {}).get("wall_s", 240 if tier == "quick" else 900)
+        try:
+            with _time_limit(limit):
+                pr = _prove_instance(obl, case, tier, known_w)
+        except _Timeout as e:
+            pr = {"verdict": "undecided", "reason": f"proof {e}"}
         out.update(pr)
         wit_b = bad[0].get("witnesses", {}) if bad else {}
         if bad and pr.get("verdict") in ("proved", "known") and any(w == "*" or wit_b.get(w) for w in known_w):
@@ -626,4 +655,9 @@ def main(argv=None):
 
 
 if __name__ == "__main__":
-    sys.exit(main())
+    try:
+        rc = main()
+        sys.stdout.flush()
+    except BrokenPipeError:
+        rc = EXIT_CRASH
+    os._exit(rc if isinstance(rc, int) else 0)      # never hang in interpreter / pool teardown
